@@ -124,9 +124,9 @@ class Ref:
         if t == "fn":
             return False if n[1] in REDUCE else self.libset(n[2])
         if t == "bin":
-            if n[1] == "^" or n[1] in UOPS:
+            if n[1] in UOPS:
                 return self.libset(n[2])
-            return self.libset(n[2]) or self.libset(n[3])
+            return self.libset(n[2]) or self.libset(n[3])      # the scalar side is promoted (also for ^)
         raise GenBug(t)
 
     # -------------------------------------------------------------- evaluation
